@@ -115,7 +115,7 @@ Fixpoint must_kept (x : N) (past : list ev) (D : list N) (mincap : N) (resized :
       if (mincap' <=? N.of_nat (length D))%N then None else
       match o with
       | RecKept y rate reason _ _ _ _ =>
-          if N.eqb y x then Some ((rate mod two32)%N, reason, resized)
+          if N.eqb y x then Some (store_rate rate, reason, resized)
           else let D' := add_id y D in
                if (mincap' <=? N.of_nat (length D'))%N then None else must_kept x r D' mincap' resized
       | ChkSpan y _ | ChkTrace y =>
